@@ -350,6 +350,12 @@ class Ev:
             return self.do_switch(fr, b, t, st)
         if k == 'assert':
             c = self.operand(fr, t['cond'], st)
+            split = self.case_split_discr(st, c) if c[0] not in ('int',) else None
+            if split is not None:
+                outs = []
+                for s2 in split:
+                    outs.extend(self.exec_term_only(fr, b, s2))
+                return outs
             ok = c if t['expected'] else T.bnot(c)
             ob = {'kind': t['msg']['k'], 'site': t['span'], 'fn': fr.fn['path'], 'cond': ok,
                   'pc': list(st.pc), 'detail': t['msg'].get('op') or t['msg'].get('dbg') or '', 'exp': t.get('exp', False)}
@@ -365,6 +371,52 @@ class Ev:
         st.notes.append(('unsupported-term', k, t.get('span')))
         return []
 
+    def exec_term_only(self, fr, b, st):
+        """re-run the terminator of block b in state st (used after a case split)"""
+        t = fr.fn['blocks'][b]['term']
+        c = self.operand(fr, t['cond'], st)
+        ok = c if t['expected'] else T.bnot(c)
+        ob = {'kind': t['msg']['k'], 'site': t['span'], 'fn': fr.fn['path'], 'cond': ok,
+              'pc': list(st.pc), 'detail': t['msg'].get('op') or t['msg'].get('dbg') or '', 'exp': t.get('exp', False)}
+        st.obls.append(ob)
+        self.all_obls.append(ob)
+        if ok == T.FALSE:
+            return []
+        if ok != T.TRUE and ok not in st.pc:
+            st.pc.append(ok)
+        return self.run(fr, t['t'], st, b)
+
+    def case_split_discr(self, st, v):
+        """v mentions the discriminant of exactly one symbolic enum value with a known, small variant set: -> one state per feasible variant,
+        with that discriminant replaced by its integer everywhere in the state (None if v does not have that shape)"""
+        if v[0] == 'discr':
+            return None
+        ds = {x for x in T.subterms(v) if x[0] == 'discr' and not any(y[0] == 'discr' for y in T.subterms(x[1]))}
+        if len(ds) != 1:
+            return None
+        d = next(iter(ds))
+        names = self.discr_names(d)
+        if names is None or len(names) > 32:
+            return None
+        outs = []
+        for dv, name in sorted(names.items()):
+            s2 = st.copy()
+            atom = ('isvar', d[1], name)
+            if atom not in s2.pc:
+                s2.pc.append(atom)
+                if not solver.sat(s2.pc):
+                    continue
+            sub_ = {d: T.I(dv)}
+            for loc, val in list(s2.store.items()):
+                if T.mentions(val, d):
+                    s2.store[loc] = T.rebuild(val, sub_)
+            s2.pc = [T.rebuild(a, sub_) if T.mentions(a, d) else a for a in s2.pc]
+            s2.pc = [a for a in s2.pc if a != T.TRUE]
+            if T.FALSE in s2.pc:
+                continue
+            outs.append(s2)
+        return outs
+
     def do_switch(self, fr, b, t, st):
         v = self.operand(fr, t['op'], st)
         vals, targets, other = t['vals'], t['targets'], t['otherwise']
@@ -377,33 +429,12 @@ class Ev:
         is_bool = t['op_ty'] == 'bool'
         edges = []
         if v[0] != 'discr':
-            # arithmetic over the discriminant of one symbolic enum value (`(x as u8) >> 4`, `x as u8 == 0x11 & 0xF0`): decided per variant
-            ds = {x for x in T.subterms(v) if x[0] == 'discr'}
-            if len(ds) == 1:
-                d = next(iter(ds))
-                names = self.discr_names(d)
-                if names is not None and len(names) <= 32:
-                    per = []
-                    for dv, name in sorted(names.items()):
-                        c = T.rebuild(v, {d: T.I(dv)})
-                        if c[0] != 'int':
-                            per = None
-                            break
-                        per.append((name, c[1]))
-                    if per is not None:
-                        for name, cv in per:
-                            tg = other
-                            for x, tgt in zip(vals, targets):
-                                if x == cv:
-                                    tg = tgt
-                            s2 = st.copy()
-                            atom = ('isvar', d[1], name)
-                            if atom not in s2.pc:
-                                s2.pc.append(atom)
-                                if not solver.sat(s2.pc):
-                                    continue
-                            outs.extend(self.run(fr, tg, s2, b))
-                        return outs
+            # arithmetic over the discriminant of one symbolic enum value (`(x as u8) >> 4`, a table indexed by it): decided per variant
+            split = self.case_split_discr(st, v)
+            if split is not None:
+                for s2 in split:
+                    outs.extend(self.do_switch(fr, b, t, s2))
+                return outs
         if v[0] == 'discr':
             names = self.discr_names(v)
             if names is None:
@@ -470,6 +501,8 @@ class Ev:
     def const(self, c, fr=None):
         if 'int' in c:
             return T.I(c['int'])
+        if 'agg' in c:
+            return self.const_agg(c['agg'], c.get('ty'), fr)
         if 'unevaluated' in c:
             # a const generic parameter: its value comes from the instantiation being analysed
             m = re.match(r'Ty\(\w+, (\w+)/#\d+\)$', c['unevaluated'])
@@ -503,6 +536,18 @@ class Ev:
         if c.get('zst'):
             return T.UNIT
         return ('opaque', 'const %s' % c.get('ty'))
+
+    def const_agg(self, a, ty, fr):
+        """structured aggregate constant (array / tuple / struct / enum value) from the fact extractor"""
+        fields = [self.const(f, fr) for f in a['fields']]
+        if a['kind'] == 'array':
+            if fields and all(f[0] == 'int' and 0 <= f[1] < 256 for f in fields) and tys.parse(ty or '?')[1:2] == (('path', 'u8', ()),):
+                return ('bytes', bytes(f[1] for f in fields))
+            return ('arr', tuple(fields))
+        if a['kind'] == 'tuple':
+            return ('tuple', tuple(fields))
+        names = a.get('names') or [str(i) for i in range(len(fields))]
+        return T.mk_adt(a['adt'], a['variant'], zip(names, fields))
 
     def operand(self, fr, o, st):
         if 'copy' in o:
